@@ -226,10 +226,10 @@ def e2e_traces(rng, n):
         while rng.random() < 0.3:
             e = rng.choice([1, 2, 3])
             k = rng.random()
-            if k < 0.4: t += in_xact(ep=e, ack=rng.random() < 0.7)
-            elif k < 0.7: t += out_xact(ep=e, payload=[rng.randrange(256) for _ in range(rng.randint(0, 9))])
-            elif k < 0.85: t += pk(W.token(W.SETUP, ep=e)) + idle(rng.randint(3, 20))
-            else: t += setup_xact(rand_setup(rng), ep=e)
+            if k < 0.45: t += in_xact(ep=e, ack=rng.random() < 0.7)
+            elif k < 0.8: t += out_xact(ep=e, payload=[rng.randrange(256) for _ in range(rng.randint(0, 9))])
+            elif k < 0.94: t += pk(W.token(W.SETUP, ep=e)) + idle(rng.randint(3, 20))
+            else: t += setup_xact(rand_setup(rng), ep=e)      # the decoder also decodes these (see ASSUMPTIONS)
         return t
     out = []
     for _ in range(n):
@@ -249,7 +249,7 @@ def e2e_traces(rng, n):
                 stages += ["sin"]
             if rng.random() < 0.1:
                 rng.shuffle(stages)
-            ab = rng.choice([0.0, 0.3, 0.6])
+            ab = rng.choice([0.0, 0.0, 0.3, 0.6])
             for st in stages:
                 if rng.random() < ab / len(stages):
                     break
@@ -471,7 +471,7 @@ def random_cycles(rng, n, ep):
 
 def traces(target, rng, tier):
     if target.kind == "e2e":
-        return e2e_traces(rng, 5 if tier == "quick" else 16)
+        return e2e_traces(rng, 6 if tier == "quick" else 16)
     ep = target.params["ep"]
     n = 18 if tier == "quick" else 60
     out = []
